@@ -138,6 +138,11 @@ func diffSub(got *pubsubpb.Subscription, name, topic string, c subCfg) []string 
 	if got.PushConfig.GetPushEndpoint() != c.push {
 		add("push_config.push_endpoint", got.PushConfig.GetPushEndpoint(), c.push)
 	}
+	if c.push == "" && got.PushConfig != nil {
+		// a pull subscription has no push_config block, however it became one
+		// (created without, created with an empty one, switched back by an update)
+		add("push_config", "an (empty) block", "absent: this is a pull subscription")
+	}
 	sort.Strings(d)
 	return d
 }
@@ -219,6 +224,8 @@ func TestC17(t *testing.T) {
 			if r.Intn(3) == 0 {
 				c.push = "http://127.0.0.1:9/push?x=1&y=é"
 				req.PushConfig = &pubsubpb.PushConfig{PushEndpoint: c.push}
+			} else if (i+int(seed))%4 == 0 {
+				req.PushConfig = &pubsubpb.PushConfig{} // present but empty: a pull subscription
 			}
 			created, err := e.Sub.CreateSubscription(e.Ctx, req)
 			if err != nil {
